@@ -243,6 +243,14 @@ func c10(c *ctx) {
 		rng := vh.Rand(c.seed, key)
 		d := ws.Dialer{Protocols: []string{"chat", "superchat"}, ReadBufferSize: bufs[rot%len(bufs)], WriteBufferSize: []int{0, 16, 4096}[rot%3],
 			Extensions: []httphead.Option{{Name: []byte("permessage-deflate")}, {Name: []byte("x-foo")}}}
+		if rot%2 == 0 { // the offer carries parameters of its own: what comes back must be the server's, not these
+			o1 := httphead.Option{Name: []byte("permessage-deflate")}
+			o1.Parameters.Set([]byte("client_max_window_bits"), []byte("10"))
+			o1.Parameters.Set([]byte("server_no_context_takeover"), nil)
+			o2 := httphead.Option{Name: []byte("x-foo")}
+			o2.Parameters.Set([]byte("p"), []byte("1"))
+			d.Extensions = []httphead.Option{o1, o2}
+		}
 		reqExts := []string{"permessage-deflate", "x-foo"}
 		var sentProto string
 		var sentExts []string
